@@ -170,6 +170,28 @@ def run_rust(codec, profile, scripts, tag):
     return outs
 
 
+def panic_messages(codec, profile, script, tag):
+    """run one script with the panic hook enabled and return what the implementation / harness said"""
+    import subprocess
+    ok, _ = build_harness(profile)
+    if not ok:
+        return []
+    path = os.path.join(BUILD, "scripts_%s_msg.txt" % tag)
+    with open(path, "w") as f:
+        f.write(script_text(script) + "\n")
+    try:
+        p = subprocess.run([harness_bin(profile), "vm", codec, path], capture_output=True, text=True, timeout=120,
+                           env=dict(os.environ, HARNESS_PANIC_MSG="1", RUST_BACKTRACE="0"))
+    except Exception:
+        return []
+    msgs = []
+    lines = p.stderr.splitlines()
+    for i, l in enumerate(lines):
+        if "panicked at" in l:
+            msgs.append((l + " " + (lines[i + 1] if i + 1 < len(lines) else "")).strip()[:400])
+    return msgs[:5]
+
+
 def obs_coq(out):
     obs, panicked = out
     return "([" + "; ".join("[" + "; ".join(str(x) for x in o) + "]" for o in obs) + "], " + \
